@@ -16,9 +16,17 @@ Correspondence (extracted Coq model coq/Roland.v vs the real code on the same in
   roland_listing      volumes (incl. the orphan pseudo volume) -> performances -> sample files
   roland_sample_pcm   FAT words -> decoded links -> get_file(cluster_top) -> chained file ->
                       window -> reversal, with the table and cluster size scaled down
+  roland_export.*     the WHOLE-IMAGE model coq/RolandImage.v (roland_export_gen over the sparse
+                      image) against the real CLI export of EVERY generated image: same set of
+                      paths, same rate / channels / length, same PCM; same exception class when
+                      the export aborts (malformed family included)
+  roland_ls           the tree (volume numbers and names, performances, programs, samples)
+  raw_fat_check / raw_get_file   the raw-word FAT shortcuts against the real decoder
+  sparse_read         the model's reader over the sparse image encoding against Python slicing
 """
 import io
 import itertools
+import os
 import random
 import struct
 import types
@@ -32,13 +40,19 @@ RULE = ("image level (oracle): every permutation of cluster chains of length 1..
         "contiguous blocks and chains interleaved in one shuffled pool; 7 loop modes x 6 frequency codes x FAT version 1/2 with random "
         "start/sustain/release points and fine parts; audio lengths k*9216 + {-2,0,+2} bytes (k = 1..3) x cluster_top 0..2 x forward/release/"
         "reverse windows ending on the last word; fixed and random trees with entries shared between parents, entries nobody references, "
-        "performances no volume references (orphan pseudo volume), disks without volumes; damaged images are exported too but only counted. "
+        "performances no volume references (orphan pseudo volume), disks without volumes. EVERY generated image is also exported by the extracted whole-image "
+        "Coq model (roland_export over the sparse image) and compared with the real CLI export: outcome / exception class, set of paths, rate, channels, length, PCM; "
+        "that comparison (without the oracle) also runs on random trees with names that are sanitised, counted or paired into stereo files (plus the `ls` tree), on 24 kinds "
+        "of damaged images (loop points, cluster_top, truncation, FAT loops / flags / id / version, entries at free / head / tail clusters, counters, non-ascii names, "
+        "frequency and mode bytes, pointers outside the tables, cross-linked and mid-entered chains) and on the malformed family. "
         "Function level (correspondence): all 7 modes x point tuples over a small grid (exhaustive) and random 24-bit points; every record index "
         "of the five kinds at the ends and random inside; pointer lists exhaustive over {-1,0,1,2}^<=4 and random; all FATs with <= 4 live "
         "clusters holding one chain in every order x cluster_top x mode. distinct = distinct (kind, canonical case); a sample/image is "
         "non-trivial when its window is non-empty (image level: at least one sample is referenced)")
 
 WPC = W.WORDS_PER_CLUSTER
+# the extracted driver allocates a lot of short-lived cells: a larger minor heap halves its time
+os.environ.setdefault("OCAMLRUNPARAM", "s=8M,o=400")
 
 
 # =======================================================================================
@@ -96,6 +110,106 @@ def patch_multiplicity(disk: W.Disk, perf_no: int):
 
 
 # =======================================================================================
+# the whole-image model against the real export
+# =======================================================================================
+def exc_class(e):
+    """exception class name as harness/model.py maps it (first class of the MRO the model knows)"""
+    if e is None:
+        return None
+    known = set(M.EXN.values())
+    for c in type(e).__mro__:
+        if c.__name__ in known:
+            return c.__name__
+    return type(e).__name__
+
+
+def model_export(img):
+    mv = M.res(M.call_batch("roland_export", [M.Raw(M.enc_image_runs(img))])[0])
+    if mv[0] != "ok":
+        return mv, None
+    mod = {}
+    for comps, rate, ch, pcm in mv[1]:
+        mod["/".join("".join(map(chr, c)) for c in comps) + ".wav"] = (ch, rate, bytes(pcm))
+    return mv, mod
+
+
+def compare_model(ctx, case, img, r, tree):
+    """real CLI export (result r, files tree) against roland_export of the extracted model"""
+    mv, mod = model_export(img)
+    if r.exc is not None or mod is None:
+        # both must abort, with the same exception class
+        ctx.agree("roland_export.outcome", case, ("err", exc_class(r.exc)) if r.exc is not None else ("ok",), mv[:2] if mod is None else ("ok",))
+        return mod
+    ctx.agree("roland_export.outcome", case, ("ok",), ("ok",))
+    ctx.agree("roland_export.paths", case, sorted(tree), sorted(mod))
+    for pth in sorted(set(tree) & set(mod)):
+        w = R.parse_wav(tree[pth])
+        mch, mrate, mdata = mod[pth]
+        c2 = dict(case, file=pth)
+        if not w["ok"]:
+            ctx.agree("roland_export.header", c2, "unreadable WAV: " + str(w.get("why")), (mch, mrate, len(mdata)))
+            continue
+        ctx.agree("roland_export.header", c2, (w["channels"], w["rate"], len(w["data"])), (mch, mrate, len(mdata)))
+        if w["channels"] == 2 and case.get("stereo_unequal"):
+            continue      # a pair of unequal lengths: the padded tail is not modelled (Transcode.v, C12); header compared above
+        ctx.agree("roland_export.pcm", c2, w["data"].hex()[:64] + "|%d" % hash(w["data"]), mdata.hex()[:64] + "|%d" % hash(mdata))
+    return mod
+
+
+def image_of_spec(spec):
+    """bytes of the image a spec describes (incl. the post-serialisation damage keys)"""
+    img = W.image_bytes(build(spec))
+    if spec.get("truncate") is not None:
+        img = img[:spec["truncate"]]
+    return img
+
+
+def check_model_only(ctx, spec, kind):
+    """images the property text does not speak about (names that are sanitised / paired /
+    counted, damaged records, damaged FAT, truncated files): real export vs whole-image model"""
+    case = {"kind": kind, "spec": spec}
+    if spec.get("stereo_unequal"):
+        case["stereo_unequal"] = True
+    try:
+        img = image_of_spec(spec)
+    except AssertionError:
+        return
+    with R.TempImage(img) as path:
+        r, tree, _ = R.export(path)
+    ctx.count("model-only image: " + kind.split(":")[0], repr(spec), nontrivial=bool(tree))
+    mod = compare_model(ctx, case, img, r, tree)
+    if spec.get("ls"):
+        compare_ls(ctx, case, img)
+    return r, tree, mod
+
+
+def real_tree(path):
+    from smpl_extract.base import ElementTypes
+    image = R.open_image(path)
+    try:
+        out = []
+        for vol in image.children:
+            perfs = []
+            for pf in vol.children:
+                perfs.append([pf.name, [ch.name for ch in pf.children if ch.type_id == ElementTypes.ProgramEntry],
+                              [ch.name for ch in pf.children if ch.type_id == ElementTypes.SampleEntry]])
+            out.append([vol.index, vol.name, perfs])
+        return out
+    finally:
+        R.close_image(image)
+
+
+def compare_ls(ctx, case, img):
+    mv = M.res(M.call_batch("roland_ls", [M.Raw(M.enc_image_runs(img))])[0])
+    if mv[0] == "ok":
+        mv = ("ok", [[i, "".join(map(chr, n)), [["".join(map(chr, pn)), ["".join(map(chr, x)) for x in progs], ["".join(map(chr, x)) for x in smps]]
+                                               for pn, progs, smps in perfs]] for i, n, perfs in mv[1]])
+    with R.TempImage(img) as path:
+        impl = M.impl_res(real_tree, path)
+    ctx.agree("roland_ls", case, impl, mv)
+
+
+# =======================================================================================
 # the oracle
 # =======================================================================================
 def check_image(ctx, spec, kind):
@@ -106,6 +220,7 @@ def check_image(ctx, spec, kind):
     ctx.count("image:" + kind, repr(spec), nontrivial=bool(exp))
     with R.TempImage(img) as path:
         r, tree, reported = R.export(path)
+    compare_model(ctx, case, img, r, tree)
     if not ctx.require("export of a well-formed image completes", case, r.exc is None,
                        {"exception": r.exc_name, "message": str(r.exc)[:200], "exported_before": len(tree)}):
         return
@@ -322,6 +437,147 @@ def gen_malformed(rng):
     return spec, how
 
 
+WILD_NAMES = ["STR L", "STR R", "GTR-L", "GTR-R", "PAD  L", "PAD  R", "KICK", "KICK", "SNARE", "A/B", "x.y.", " lead", "", "'q'", "Hat:1",
+              "BASS L", "BASS", "TOM (2)", "TOM", "TOM", ".hid", "-dash-", "a\\b", "Z9 R", "same", "same"]
+
+
+def gen_wild(rng):
+    """names the exporter sanitises, counts or pairs; a sample reached through several patches"""
+    spec = gen_tree(rng)
+    pool = list(WILD_NAMES)
+    rng.shuffle(pool)
+    unequal = False
+    by_name = {}
+    for i, (n, s) in enumerate(spec["samples"]):
+        s["name"] = pool[i % len(pool)]
+        by_name[s["name"]] = s
+    # L/R partners: same length, points and mode (most of the time)
+    for a, b in (("STR L", "STR R"), ("GTR-L", "GTR-R"), ("PAD  L", "PAD  R")):
+        if a in by_name and b in by_name:
+            if rng.random() < 0.8:
+                for k in ("n", "start", "ss", "se", "rs", "re", "mode", "top"):
+                    if k in by_name[a]:
+                        by_name[b][k] = by_name[a][k]
+                    else:
+                        by_name[b].pop(k, None)
+            else:
+                unequal = True
+    if "BASS L" in by_name:
+        unequal = unequal or False
+    for key in ("patches", "performances"):
+        for _, ent in spec[key]:
+            pass
+    spec["patches"] = [(n, (rng.choice(["PA%d" % n, "KICK", "same", "x.y.", "PA"]), l)) for n, (_, l) in spec["patches"]]
+    spec["performances"] = [(n, (rng.choice(["PERF %d" % n, "PERF", "P.", "P-", " P", ""]), l)) for n, (_, l) in spec["performances"]]
+    spec["volumes"] = [(rng.choice([nm, "VOL", "V.", "_Orphan_perf", ""]), l) for nm, l in spec["volumes"]]
+    if unequal:
+        spec["stereo_unequal"] = True
+    spec["ls"] = True
+    return spec
+
+
+def gen_damaged(rng):
+    """a well-formed disk plus one kind of damage the property text excludes; (spec, tag)"""
+    n_s = rng.randint(2, 5)
+    samples = []
+    for i in range(n_s):
+        n = rng.choice([50, 300, WPC - 3, WPC, WPC + 40, 2 * WPC + 7])
+        samples.append((i, sample_spec("D%d" % i, n, rand_points(rng, n), mode=rng.randrange(7), freq=rng.randrange(6),
+                                       top=rng.choice([0, 0, 1]), seed=rng.randrange(1 << 16))))
+    spec = flat_spec(samples, fat=rng.choice([1, 2]))
+    victim = rng.randrange(n_s)
+    v = spec["samples"][victim][1]
+    how = rng.choice(["end<start", "end=start-1", "end beyond file", "start beyond file", "top>=chain", "truncated", "truncated early",
+                      "fat loop", "fat reserved mid-chain", "fat error flag", "fat free mid-chain", "fat id", "fat version", "entry free cluster",
+                      "entry cluster 0", "entry beyond table", "more performances than listed", "more volumes than records",
+                      "non-ascii name", "freq code", "mode byte", "pointer outside table", "chain shares tail", "entry mid-chain"])
+    raw = spec.setdefault("raw", [])
+    fo = spec.setdefault("fat_overrides", {})
+    nclu = -(-v["n"] * 2 // W.CLUSTER) + v.get("top", 0)
+    if how == "end<start":
+        v["start"], v["se"], v["re"] = 20, rng.choice([3, 10]), rng.choice([3, 10, 30])
+    elif how == "end=start-1":
+        v["start"] = 10
+        v["se"] = v["re"] = 9
+    elif how == "end beyond file":
+        v["se"] = v["re"] = (nclu - v.get("top", 0)) * WPC + rng.choice([0, 1, 5000, 1 << 20])
+    elif how == "start beyond file":
+        v["start"] = (nclu - v.get("top", 0)) * WPC + rng.choice([0, 7])
+        v["se"] = v["re"] = v["start"] + rng.choice([0, 10])
+    elif how == "top>=chain":
+        raw.append(("sample", victim, 40, struct.pack("<H", nclu + rng.choice([0, 1, 40])).hex()))
+    elif how in ("truncated", "truncated early"):
+        spec["truncate"] = None     # filled in below, needs the image size
+    elif how == "fat loop":
+        v["chain"] = [30, 31, 32][:max(1, nclu)] if nclu <= 3 else None
+        fo[str(rng.choice([30, 30 + max(0, min(nclu, 3) - 1)]))] = 30
+    elif how == "fat reserved mid-chain":
+        v["chain"] = [40, 41, 42][:max(1, min(3, nclu))] if nclu <= 3 else None
+        fo["40"] = rng.choice([1, 0]) if nclu > 1 else 1
+    elif how == "fat error flag":
+        fo[str(rng.choice([200, 2, 65526]))] = 0xFFF7
+    elif how == "fat free mid-chain":
+        fo["300"] = 301
+    elif how == "fat id":
+        fo["0"] = rng.choice([0, 0xFFFB])
+    elif how == "fat version":
+        spec["flags"] = rng.choice([(0xFFFD, 0xFFFF), (0xFFFF, 0x1234), (0xFFFE, 0xFFFF), (0xFFFF, 0xFFFE), (0xFFFE, 7)])
+    elif how == "entry free cluster":
+        raw.append(("sample_dir", victim, 28, struct.pack("<H", rng.choice([900, 901])).hex()))
+    elif how == "entry cluster 0":
+        raw.append(("sample_dir", victim, 28, struct.pack("<H", rng.choice([0, 1])).hex()))
+    elif how == "entry beyond table":
+        raw.append(("sample_dir", victim, 28, struct.pack("<H", rng.choice([65527, 65535, 65530])).hex()))
+    elif how == "more performances than listed":
+        raw.append(("abs", 0, 278, struct.pack("<H", rng.choice([2, 9])).hex()))
+    elif how == "more volumes than records":
+        raw.append(("abs", 0, 276, struct.pack("<H", rng.choice([2, 3, 200])).hex()))
+    elif how == "non-ascii name":
+        kind = rng.choice(["sample", "sample_dir", "partial", "partial_dir", "patch", "patch_dir", "performance", "performance_dir", "volume", "volume_dir"])
+        raw.append((kind, victim if kind.startswith("sample") else 0, rng.randrange(16), "c3"))
+    elif how == "freq code":
+        raw.append(("sample", victim, 44, bytes([rng.choice([6, 15, 0x17, 0xF2])]).hex()))
+    elif how == "mode byte":
+        raw.append(("sample", victim, 36, bytes([rng.choice([7, 200, 255])]).hex()))
+    elif how == "pointer outside table":
+        spec["partials"][0][1][1].append(rng.choice([0x2000, 0x7FFF]))
+    elif how == "chain shares tail":
+        # a second sample whose chain runs into the victim's second cluster
+        if nclu >= 2 and len(spec["samples"]) >= 2:
+            v["chain"] = list(range(500, 500 + nclu))
+            o = spec["samples"][(victim + 1) % n_s][1]
+            need = -(-o["n"] * 2 // W.CLUSTER) + o.get("top", 0)
+            o["chain"] = list(range(700, 700 + need))
+            fo[str(700 + need - 1)] = 501
+    elif how == "entry mid-chain":
+        if nclu >= 2:
+            v["chain"] = list(range(600, 600 + nclu))
+            raw.append(("sample_dir", victim, 28, struct.pack("<H", 601).hex()))
+    # a second, independent damage of the stream kind (windows x reverse modes x missing clusters)
+    if rng.random() < 0.35:
+        o = spec["samples"][rng.randrange(n_s)][1]
+        words = (-(-o["n"] * 2 // W.CLUSTER)) * WPC
+        o["mode"] = rng.choice([0, 1, 5, 5, 6, 6, o.get("mode", 0)])
+        o["start"] = rng.choice([0, 1, o["n"] // 2, o["n"] - 1, words - 1, words, words + 3])
+        o["se"] = rng.choice([o["n"] - 1, o["n"], words - 1, words, words + 1, words + 2100, 2 * words + 5, o["start"], max(0, o["start"] - 1), max(0, o["start"] - 2)])
+        o["re"] = rng.choice([o["n"] - 1, words - 1, words + 9, o["start"], 0])
+        how += " + window"
+    second_cut = rng.random() < 0.25 and not how.startswith("truncated")
+    spec["raw"] = [list(x) for x in raw]
+    if second_cut:
+        try:
+            size = len(W.image_bytes(build(spec)))
+            spec["truncate"] = size - rng.choice([1, 2, 100, 4096, 4097, W.CLUSTER - 1, W.CLUSTER, W.CLUSTER + 1, 2 * W.CLUSTER + 17, 3 * W.CLUSTER])
+            how += " + cut"
+        except AssertionError:
+            pass
+    if how.startswith("truncated"):
+        size = len(W.image_bytes(build(dict(spec, truncate=None))))
+        spec["truncate"] = size - rng.choice([1, 2, 100, W.CLUSTER, W.CLUSTER + 1]) if how == "truncated" \
+            else rng.choice([0x2B1000 + 2 * W.CLUSTER + 5, 0x2B5800, 0x2B1000 - 1, 0x255800 + 48, 0xA0800 - 1, 0x80800 + 100, 0x90000])
+    return spec, how
+
+
 # =======================================================================================
 # workers
 # =======================================================================================
@@ -342,6 +598,11 @@ def w_image(pid, tier, seed, job):
         check_image(ctx, spec, "tree: " + name)
     elif fam == "tree":
         check_image(ctx, gen_tree(rng), "random tree")
+    elif fam == "wild":
+        check_model_only(ctx, gen_wild(rng), "wild names")
+    elif fam == "damaged":
+        spec, how = gen_damaged(rng)
+        check_model_only(ctx, spec, "damaged: " + how)
     elif fam == "malformed":
         spec, how = gen_malformed(rng)
         disk = build(spec)
@@ -351,7 +612,8 @@ def w_image(pid, tier, seed, job):
             return ctx.dump()
         with R.TempImage(img) as path:
             r, tree, _ = R.export(path)
-        ctx.count("malformed image (counted, not judged)", (how, r.exc_name, len(tree)), nontrivial=False)
+        ctx.count("malformed image (model vs implementation, not judged by the oracle)", (how, r.exc_name, len(tree)), nontrivial=False)
+        compare_model(ctx, {"kind": "malformed %d" % how, "spec": spec}, img, r, tree)
     return ctx.dump()
 
 
@@ -375,14 +637,20 @@ def image_jobs(ctx):
         jobs.append(("tree", None, ctx.seed * 6151 + i))
     for i in range(10 if q else 40):
         jobs.append(("malformed", None, ctx.seed * 389 + i))
+    for i in range(40 if q else 400):
+        jobs.append(("wild", None, ctx.seed * 7727 + i))
+    for i in range(72 if q else 720):
+        jobs.append(("damaged", None, ctx.seed * 2671 + i))
     return jobs
 
 
 def run(ctx):
     F.pmap(ctx, w_image, image_jobs(ctx))
     run_correspondence(ctx)
-    ctx.note("images: %d; D10 (cluster_top >= chain length -> IndexError) needs a damaged record and is kept out of C02 (C14)"
-             % sum(v for k, v in ctx.dist.items() if k.startswith("image:")))
+    ctx.note("images judged by the oracle: %d; images compared model vs implementation only (names / damage / malformed): %d; D10 (cluster_top >= chain "
+             "length -> IndexError) needs a damaged record and is kept out of the C02 oracle (C14) - the whole-image model reproduces it (sample skipped)"
+             % (sum(v for k, v in ctx.dist.items() if k.startswith("image:")),
+                sum(v for k, v in ctx.dist.items() if k.startswith("model-only") or k.startswith("malformed"))))
 
 
 # =======================================================================================
@@ -686,6 +954,99 @@ def w_pcm(pid, tier, seed, job):
     return ctx.dump()
 
 
+def real_fat(fat):
+    """the real decoder on a full-size table: ('ok', version, table object) | ('err', class)"""
+    import smpl_extract.roland.s7xx.fat as RF
+    from smpl_extract.util.stream import StreamOffset
+    md = types.SimpleNamespace(fat_id=fat[0], num_unused_clusters=fat[1], version_flag_1=fat[-2], version_flag_2=fat[-1])
+    c = types.SimpleNamespace(fat_entries=list(fat), metadata=md, stream_size=0, fat_data_stream=StreamOffset(io.BytesIO(b""), 0, 0))
+    area = RF.FatAreaParser._decode(c, {}, "")
+    return area
+
+
+def w_rawfat(pid, tier, seed, job):
+    """raw_fat_check / raw_get_file (no link table) against FatAreaAdapter._decode + get_file on
+    full-size tables whose low clusters hold random words"""
+    ctx = F.Ctx(pid, tier, seed)
+    N = 0x10000
+    tables, queries = [], []
+    for js in job:
+        rng = random.Random(js)
+        fat = [0] * N
+        fat[0] = 0xFFFA if rng.random() < 0.95 else rng.choice([0, 0xFFFB])
+        fat[1] = rng.choice([0, 1, 5, 0xFFF7, 12])
+        fat[N - 2], fat[N - 1] = rng.choice([(0xFFFF, 0xFFFF), (0xFFFE, 0xFFFE), (0xFFFF, 0xFFFE), (0xFFFE, 0xFFFF), (0xFFFF, 0xFFFF), (0xFFFD, 0xFFFF), (0xFFFF, 3)])
+        live = rng.choice([6, 12, 30])
+        pool = list(range(2, 2 + live)) + rng.sample([N - 12, N - 11, N - 10, 40, 41, 1000], rng.randint(0, 3))
+        rng.shuffle(pool)
+        pool = pool[:rng.randint(1, len(pool))]
+        chains = []
+        while pool:
+            k = rng.randint(1, min(5, len(pool)))
+            chains.append(pool[:k])
+            pool = pool[k:]
+        for ch in chains:
+            for x, y in zip(ch, ch[1:]):
+                fat[x] = y
+            fat[ch[-1]] = rng.choice([0xFFFF, 0xFFF8, 0xFFFA, 0xFFFE])
+        if len(chains) >= 2 and rng.random() < 0.4:          # shared tail: a chain runs into the middle of another
+            a_, b_ = rng.sample(chains, 2)
+            fat[a_[-1]] = rng.choice(b_)
+        if rng.random() < 0.45:                               # one defect
+            x = rng.choice([c for ch in chains for c in ch] + [rng.randrange(2, 2 + live + 3)])
+            fat[x] = rng.choice([0, 1, 0xFFF7, x, rng.randrange(2, 2 + live), N - 9, N - 3, N - 1, 0xFFF6, 0, 1])
+        if rng.random() < 0.2:
+            for i in (N - 12, N - 11, N - 10, N - 9, N - 5):
+                fat[i] = rng.choice([0, 0, 1, 0xFFFF, 3, 0xFFF7, N - 10])
+        tables.append(fat)
+    mcheck = M.call_batch("raw_fat_check", tables)
+    for js, fat, mv in zip(job, tables, mcheck):
+        rng = random.Random(js + 1)
+        try:
+            area = real_fat(fat)
+            impl = ("ok", area.version)
+        except Exception as e:  # noqa
+            area, impl = None, ("err", exc_class(e))
+        ctx.count("raw_fat_check", tuple(fat[:40]) + tuple(fat[-12:]), nontrivial=True)
+        ctx.agree("raw_fat_check", {"fat_low": fat[:40], "fat_high": fat[-12:]}, impl, M.res(mv))
+        if area is None:
+            continue
+        qs = [(e, t) for e in [0, 1] + list(range(2, 34)) + [N - 12, N - 10, N - 9, N - 5, N - 1, rng.randrange(N)] for t in (0, 1, 3)]
+        queries.append((fat, area, qs))
+    # one batch per table would marshal 65536 words per query: send each table once with its queries
+    for fat, area, qs in queries:
+        mres = M.call_batch("raw_get_files", [[fat, [list(q) for q in qs]]])[0]
+        for (e, t), mv in zip(qs, mres):
+            impl = M.impl_res(lambda: list(area.fat.get_file(e, cluster_offset=t).sector_list))
+            ctx.count("raw_get_file", (tuple(fat[:40]), e, t), nontrivial=True)
+            ctx.agree("raw_get_file", {"fat_low": fat[:40], "fat_high": fat[-12:], "entry": e, "cluster_top": t}, impl, M.res(mv))
+    return ctx.dump()
+
+
+def w_sparse(pid, tier, seed, job):
+    ctx = F.Ctx(pid, tier, seed)
+    for js in job:
+        rng = random.Random(js)
+        n = rng.choice([0, 1, 50, 700, 5000])
+        data = bytearray(n)
+        for _ in range(rng.randint(0, 6)):
+            if n:
+                a = rng.randrange(n)
+                ln = rng.choice([1, 2, 17, 40, 1500])
+                data[a:a + ln] = bytes(rng.randrange(1, 256) if rng.random() < 0.9 else 0 for _ in range(min(ln, n - a)))
+        data = bytes(data[:n])
+        reads = [(rng.randrange(-3, n + 5), rng.choice([0, 1, 2, 16, 33, 1024, n, n + 7, -1])) for _ in range(25)]
+        enc = M.enc_image_runs(data, max_run=rng.choice([1, 7, 64, 1024]))
+        mv = M.call_batch("sparse_read", [[M.Raw(enc), [list(r) for r in reads]]])[0]
+        for (o, k), got in zip(reads, mv):
+            want = list(data[o:o + k]) if (o >= 0 and k > 0) else ([] if k <= 0 or o >= 0 else None)
+            if want is None:          # negative offset: the model never asks (rd_opt tests 0 <= off)
+                continue
+            ctx.count("sparse_read", (data, o, k), nontrivial=bool(want))
+            ctx.agree("sparse_read", {"image": data.hex()[:200], "off": o, "n": k}, want, got)
+    return ctx.dump()
+
+
 def chunks(l, n):
     l = list(l)
     for i in range(0, len(l), n):
@@ -743,6 +1104,10 @@ def run_correspondence(ctx):
         pc += pcm_cases(live, 4, rng, 6 if q else 12)
     pc += pcm_cases(4 if q else 5, 6, rng, 2)
     F.pmap(ctx, w_pcm, list(chunks(pc, 250)))
+    # --- the raw-word FAT shortcuts of the whole-image model, and its sparse reader
+    base = ctx.seed * 32452843
+    F.pmap(ctx, w_rawfat, [[base + j * 100 + i for i in range(6 if q else 40)] for j in range(16 if q else 48)])
+    F.pmap(ctx, w_sparse, [[base + j * 100 + i for i in range(12 if q else 100)] for j in range(8 if q else 32)])
     ctx.exhaustive = True
     ctx.note("exhaustive function-level spaces: window grid {0..3}^5 restricted as coded x 7 modes; pointer lists over {-1,0,1,2}^<=4; "
              "every chain order over <= %d live clusters; everything else seeded random" % (3 if q else 4))
@@ -751,11 +1116,16 @@ def run_correspondence(ctx):
 def replay(ctx, case):
     c = case["case"]
     sub = F.Ctx(ctx.pid, ctx.tier, ctx.seed)
-    if "spec" in c:
-        check_image(sub, c["spec"], c.get("kind", "replay"))
+    kind = c.get("kind", "replay")
+    if "spec" in c and (kind.startswith("wild") or kind.startswith("damaged") or kind.startswith("malformed")):
+        check_model_only(sub, c["spec"], kind)
+    elif "spec" in c:
+        check_image(sub, c["spec"], kind)
     else:
         print("replay case not self-contained; re-run the check with the same VERIF_SEED", c)
         return False
     for f in sub.failures:
         print(f["what"], f["detail"])
-    return not sub.failures
+    for d in sub.disagreements:
+        print("model and implementation differ:", d["relation"], "impl:", str(d["impl"])[:300], "model:", str(d["model"])[:300])
+    return not sub.failures and not sub.disagreements
